@@ -72,7 +72,8 @@ class Chooser(object):
         self.prefix = list(prefix)
         self.points = []       # arities
         self.choices = []
-        self.orders = []       # per pool call: (api, k, n, completion order of chunks)
+        self.orders = []       # per pool: k, chunks, apis, completion order of chunks
+        self.timeouts = []     # chunk ids whose get()/wait() timed out, in order
 
     def choose(self, arity):
         if arity <= 1:
@@ -87,40 +88,81 @@ class Chooser(object):
 
 
 class _AsyncResult(object):
-    def __init__(self, pool, getter):
-        self._pool, self._getter = pool, getter
+    """result handle of apply_async / map_async; `get(timeout)` is a scheduling point: with a finite
+    timeout and an unfinished task the explorer decides whether the timeout fires first"""
+
+    def __init__(self, pool, chunk_ids, getter):
+        self._pool, self._ids, self._getter = pool, list(chunk_ids), getter
+
+    def _finished(self):
+        return all(q in self._pool._done for q in self._ids)
 
     def get(self, timeout=None):
-        self._pool._drain()
+        self.wait(timeout, _raise=True)
         return self._getter()
 
-    def wait(self, timeout=None):
-        self._pool._drain()
+    def wait(self, timeout=None, _raise=False):
+        p = self._pool
+        if self._finished():
+            return
+        if timeout is not None and p._timeouts_left > 0:
+            # does the timeout fire before the task completes?  0 = no (default), 1 = yes
+            if p._chooser.choose(2) == 1:
+                p._timeouts_left -= 1
+                # while waiting, some OTHER tasks may complete (never all of this handle's, or it would be ready)
+                others = p._completions_possible_without(self._ids)
+                j = p._chooser.choose(min(others, 2) + 1) if others else 0
+                for _ in range(j):
+                    p._complete_one(exclude=self._ids)
+                p._chooser.timeouts.append(tuple(self._ids))
+                if _raise:
+                    import multiprocessing
+                    raise multiprocessing.TimeoutError()
+                return
+        p._advance_until(self._ids)
 
     def ready(self):
-        self._pool._drain()
-        return True
+        # polling makes time pass: one more completion happens before the answer (so a polling loop terminates)
+        if not self._finished() and (self._pool._running or self._pool._next < len(self._pool._queue)):
+            self._pool._complete_one()
+        return self._finished()
 
     def successful(self):
-        self._pool._drain()
+        if not self._finished():
+            raise ValueError("result is not ready")
         return True
 
 
 class ControlledPool(object):
-    """In-process double of multiprocessing.pool.Pool driven by a Chooser."""
+    """In-process double of multiprocessing.pool.Pool driven by a Chooser.
+
+    The pool is stepped incrementally: tasks are queued FIFO (chunked as the real pool does), at most k chunks
+    run, and every blocking call advances the pool - asking the Chooser which running chunk finishes next -
+    only as far as it needs.  A chunk's tasks are executed in-process at the moment it completes."""
+
+    MAX_TIMEOUTS = 3        # bound on the number of get()/wait() timeouts that fire per pool (fairness)
 
     def __init__(self, chooser, processes=None, initializer=None, initargs=(), *a, **kw):
         self._chooser = chooser
         self._k = int(processes) if processes else (os.cpu_count() or 1)
         if self._k < 1:
             raise ValueError("Number of processes must be at least 1")
-        self._pending = []     # batches awaiting execution
+        self._queue = []       # (batch, chunk index in batch, task indices)
+        self._next = 0         # next queue entry to dispatch
+        self._running = []     # queue indices, in dispatch order
+        self._done = set()
+        self._order = []       # completion order (queue indices)
         self._closed = False
+        self._timeouts_left = self.MAX_TIMEOUTS
+        self._record = {"k": self._k, "chunks": [], "apis": [], "completion": self._order}
+        chooser.orders.append(self._record)
         if initializer is not None:
             initializer(*initargs)
 
-    # a batch = one API call: tasks cut into chunks, with a delivery callback per chunk
+    # ---- engine
     def _submit(self, api, func, items, star, chunksize=None, on_chunk=None):
+        if self._closed:
+            raise ValueError("Pool not running")
         items = list(items)
         n = len(items)
         if chunksize:
@@ -128,59 +170,75 @@ class ControlledPool(object):
         else:
             chs = chunks_for(n, self._k, api)
         batch = {"api": api, "func": func, "items": items, "star": star, "chunks": chs,
-                 "results": [None] * n, "done_order": [], "on_chunk": on_chunk, "ran": False}
-        self._pending.append(batch)
+                 "results": [None] * n, "done_order": [], "on_chunk": on_chunk, "ids": []}
+        for ci, ch in enumerate(chs):
+            batch["ids"].append(len(self._queue))
+            self._queue.append((batch, ci, ch))
+            self._record["chunks"].append(ch)
+        if api not in self._record["apis"]:
+            self._record["apis"].append(api)
+        self._dispatch()
         return batch
 
+    def _dispatch(self):
+        while len(self._running) < self._k and self._next < len(self._queue):
+            self._running.append(self._next)
+            self._next += 1
+
+    def _completions_possible_without(self, ids):
+        """how many completions can still happen while the chunks `ids` stay unfinished"""
+        ids = set(ids)
+        blocked = sum(1 for q in self._running if q in ids)
+        free_workers = self._k - blocked
+        if free_workers <= 0:
+            return 0
+        waiting_others = sum(1 for q in range(self._next, len(self._queue)) if q not in ids)
+        # chunks of `ids` still in the FIFO queue block everything behind them once they reach a worker;
+        # a conservative count: running others + queued others ahead of the first queued member of ids
+        first_blocked = min([q for q in range(self._next, len(self._queue)) if q in ids] or [len(self._queue)])
+        ahead = sum(1 for q in range(self._next, first_blocked))
+        return sum(1 for q in self._running if q not in ids) + ahead
+
+    def _complete_one(self, exclude=()):
+        self._dispatch()
+        cands = [q for q in self._running if q not in set(exclude)]
+        if not cands:
+            raise RuntimeError("controlled pool: nothing can complete (deadlock in the model)")
+        q = cands[self._chooser.choose(len(cands))]
+        self._running.remove(q)
+        b, ci, ch = self._queue[q]
+        for t in ch:
+            it = b["items"][t]
+            b["results"][t] = b["func"](*it) if b["star"] else b["func"](it)
+        b["done_order"].append(ci)
+        self._done.add(q)
+        self._order.append(q)
+        self._dispatch()
+        if b["on_chunk"] is not None:
+            b["on_chunk"](b, ch)
+        return q
+
+    def _advance_until(self, ids):
+        while not all(q in self._done for q in ids):
+            self._complete_one()
+
     def _drain(self):
-        """run everything submitted so far, under the chooser's completion order.
-        All pending batches share the k workers (FIFO over batches, then chunks)."""
-        queue = []
-        for b in self._pending:
-            if not b["ran"]:
-                b["ran"] = True
-                for ci, ch in enumerate(b["chunks"]):
-                    queue.append((b, ci, ch))
-        self._pending = []
-        if not queue:
-            return
-        nxt = min(self._k, len(queue))
-        running = list(range(nxt))
-        order = []
-        while running:
-            i = self._chooser.choose(len(running))
-            q = running.pop(i)
-            b, ci, ch = queue[q]
-            for t in ch:
-                it = b["items"][t]
-                b["results"][t] = b["func"](*it) if b["star"] else b["func"](it)
-            b["done_order"].append(ci)
-            order.append(q)
-            if b["on_chunk"] is not None:
-                b["on_chunk"](b, ch)
-            if nxt < len(queue):
-                running.append(nxt)
-                nxt += 1
-        self._chooser.orders.append({"k": self._k, "chunks": [c for _, _, c in queue],
-                                     "apis": sorted(set(b["api"] for b, _, _ in queue)),
-                                     "completion": order})
+        while self._running or self._next < len(self._queue):
+            self._complete_one()
 
     # ---- API
     def map(self, func, iterable, chunksize=None):
         b = self._submit("map", func, iterable, False, chunksize)
-        self._drain()
+        self._advance_until(b["ids"])
         return list(b["results"])
 
     def starmap(self, func, iterable, chunksize=None):
         b = self._submit("starmap", func, iterable, True, chunksize)
-        self._drain()
+        self._advance_until(b["ids"])
         return list(b["results"])
 
     def map_async(self, func, iterable, chunksize=None, callback=None, error_callback=None):
         b = self._submit("map_async", func, iterable, False, chunksize)
-
-        def get():
-            return list(b["results"])
         if callback is not None:
             state = {"left": len(b["chunks"])}
 
@@ -189,20 +247,21 @@ class ControlledPool(object):
                 if state["left"] == 0:
                     callback(list(bb["results"]))
             b["on_chunk"] = on_chunk
-        return _AsyncResult(self, get)
+        return _AsyncResult(self, b["ids"], lambda: list(b["results"]))
 
     def starmap_async(self, func, iterable, chunksize=None, callback=None, error_callback=None):
         b = self._submit("starmap_async", func, iterable, True, chunksize)
-        return _AsyncResult(self, lambda: list(b["results"]))
+        return _AsyncResult(self, b["ids"], lambda: list(b["results"]))
 
     def imap(self, func, iterable, chunksize=1):
         b = self._submit("imap", func, iterable, False, chunksize)
         pool = self
 
         def gen():
-            pool._drain()
-            for r in b["results"]:
-                yield r
+            for ci, ch in enumerate(b["chunks"]):
+                pool._advance_until([b["ids"][ci]])
+                for t in ch:
+                    yield b["results"][t]
         return gen()
 
     def imap_unordered(self, func, iterable, chunksize=1):
@@ -210,8 +269,12 @@ class ControlledPool(object):
         pool = self
 
         def gen():
-            pool._drain()
-            for ci in b["done_order"]:
+            given = 0
+            while given < len(b["chunks"]):
+                while len(b["done_order"]) <= given:
+                    pool._complete_one()
+                ci = b["done_order"][given]
+                given += 1
                 for t in b["chunks"][ci]:
                     yield b["results"][t]
         return gen()
@@ -221,7 +284,7 @@ class ControlledPool(object):
         b = self._submit("apply_async", lambda a: func(*a, **kwds), [tuple(args)], False)
         if callback is not None:
             b["on_chunk"] = lambda bb, ch: callback(bb["results"][0])
-        return _AsyncResult(self, lambda: b["results"][0])
+        return _AsyncResult(self, b["ids"], lambda: b["results"][0])
 
     def apply(self, func, args=(), kwds=None):
         return self.apply_async(func, args, kwds).get()
@@ -233,7 +296,9 @@ class ControlledPool(object):
         self._drain()
 
     def terminate(self):
-        self._pending = []
+        self._closed = True
+        self._running = []
+        self._next = len(self._queue)
 
     def __enter__(self):
         return self
@@ -258,6 +323,14 @@ class FakeMultiprocessing(object):
 
     def cpu_count(self):
         return 4
+
+    @property
+    def TimeoutError(self):
+        return self._real.TimeoutError
+
+    @property
+    def pool(self):
+        return self
 
     def get_context(self, method=None):
         return self
